@@ -70,18 +70,86 @@ def run_short_writes(ctx):
             ctx.violate("one-intact-frame-under-short-writes", "wrong-return", inp, f"N:{len(sock.sent)}", first, size=plen + len(comp))
 
 
+def run_eagain(ctx):
+    """the transport's send buffer is full at some write attempts (EAGAIN): `_socket.send` waits for writability and
+    retries; the send call must still put exactly one frame on the wire and return its length.  Oracle only: the
+    model's transport accepts at least one byte per call (a would-block is not a short write)."""
+    import websocket
+    rnd = ctx.rng("eagain")
+    key = b"\x21\x43\x65\x87"
+    for plen in (0, 1, 5, 126, 300):
+        payload = bytes((7 * i + 3) % 256 for i in range(plen))
+        want = client_frame(payload, key)
+        for acc in (None, [3], [1, 50], [7, 2, 100]):
+            for eagain in ([0], [1], [0, 2], [2, 4], [1, 3, 5]):
+                sock = simnet.SimSocket([], accepts=acc, eagain=eagain)
+                sock.timeout = 5.0
+                ws = websocket.WebSocket()
+                ws.sock, ws.connected = sock, True
+                ws.set_mask_key(lambda n: key)
+                try:
+                    with simnet.writable_selector():
+                        ret = ws.send_binary(payload)
+                    res = ("ret", ret)
+                except Exception as e:  # noqa
+                    res = ("exn", common.canon_exc(e))
+                ctx.case(key=("eagain", plen, str(acc), str(eagain)), nontrivial=True, cls=f"eagain:len={plen}:pattern={len(eagain)}")
+                inp = {"op": "send_binary under EAGAIN", "payload_len": plen, "accepts": acc, "eagain_at_send_calls": eagain}
+                wire = bytes(sock.sent)
+                if res[0] == "ret":
+                    if wire != want:
+                        ctx.violate("one-intact-frame-under-short-writes", "would-block-retry-damages-or-repeats-the-frame", inp, want.hex()[:120],
+                                    wire.hex()[:240], size=plen + len(eagain))
+                    elif ret != len(want):
+                        ctx.violate("one-intact-frame-under-short-writes", "wrong-return", inp, str(len(want)), str(ret), size=plen)
+                elif res[1].startswith("INTERNAL"):
+                    ctx.violate("one-intact-frame-under-short-writes", "would-block-retry-raises-" + res[1], inp, "the frame is written", res[1], size=plen)
+                elif not want.startswith(wire):
+                    ctx.violate("one-intact-frame-under-short-writes", "would-block-retry-damages-or-repeats-the-frame", inp,
+                                "a prefix of the frame when the call raises", wire.hex()[:240], size=plen + len(eagain))
+
+
 def client_frame(payload, key, op=2):
     return simnet.srv_frame(op, payload, 1, 0, key)
 
 
-def sender_run(payloads, keys, schedule, accepts):
+def factory_ws(accepts):
+    """a connection built by the documented factory `create_connection(url, socket=...)` with DEFAULT options."""
+    import base64
+    import hashlib
+    import os
+    import websocket
+    key_raw = bytes(range(16))
+    key = base64.b64encode(key_raw).decode()
+    accept = base64.b64encode(hashlib.sha1((key + "258EAFA5-E914-47DA-95CA-C5AB0DC85B11").encode()).digest()).decode()
+    head = (f"HTTP/1.1 101 Switching Protocols\r\nUpgrade: websocket\r\nConnection: Upgrade\r\n"
+            f"Sec-WebSocket-Accept: {accept}\r\n\r\n").encode()
+    sock = simnet.SimSocket([("chunk", head)])
+    old = os.urandom
+    os.urandom = lambda k: key_raw[:k]
+    try:
+        ws = websocket.create_connection("ws://example.test/", socket=sock)
+    finally:
+        os.urandom = old
+    del sock.sent[:]
+    sock.log.clear()
+    sock.send_calls = 0
+    sock.accepts, sock.acc_i = (list(accepts) if accepts else None), 0
+    return ws, sock
+
+
+def sender_run(payloads, keys, schedule, accepts, factory=False):
     import websocket
     b = Baton()
-    ws = websocket.WebSocket()
-    sock = simnet.SimSocket([], accepts=accepts)
+    if factory:
+        ws, sock = factory_ws(accepts)
+    else:
+        ws = websocket.WebSocket()
+        sock = simnet.SimSocket([], accepts=accepts)
     ws.sock = BatonSocket(sock, b)
     ws.connected = True
-    ws.lock = SimLock(b, "lock")
+    if type(ws.lock).__name__ != "NoLock":       # the object's own choice of lock stays (only its implementation is scheduled)
+        ws.lock = SimLock(b, "lock")
     klist = list(keys)
     ws.set_mask_key(lambda n: klist.pop(0))
     for i, p in enumerate(payloads):
@@ -108,9 +176,9 @@ def run_senders(ctx):
         sched = [rnd.randrange(k) for _ in range(rnd.randint(0, 60))]
         cases.append((payloads, acc, sched))
     lines, obs, metas = [], [], []
-    for payloads, acc, sched in cases:
+    for ci, (payloads, acc, sched) in enumerate(cases):
         keys = [bytes([0x10 + i, 0x20 + i, 0x30 + i, 0x40 + i]) for i in range(len(payloads))]
-        wire, eff, excs, rets = sender_run(payloads, keys, sched, acc)
+        wire, eff, excs, rets = sender_run(payloads, keys, sched, acc, factory=(ci % 4 == 3))
         frames = [client_frame(p, k) for p, k in zip(payloads, keys)]
         lines.append("m-threads-send " + ".".join(f.hex() for f in frames) + " " + (".".join(map(str, eff)) or "-") + " " + ".".join(map(str, acc)))
         obs.append(common.summarize(wire))
@@ -343,6 +411,7 @@ def run(ctx):
                 "random payloads/patterns/schedules, co-simulated with the Lean interleaving model; (c) 2-3 receiver threads, fragmented "
                 "messages with control frames, random schedules, the Lean receivers model driven by the observed lock-acquisition order; (d) one receiver answering 1-3 pings while 1-2 threads send under short writes; (a') the short-write sends again on an object equipped with a dispatcher. non-trivial = more than one piece / more than one context switch")
     run_short_writes(ctx)
+    run_eagain(ctx)
     run_senders(ctx)
     run_receivers(ctx)
     run_mixed(ctx)
